@@ -128,6 +128,9 @@ func c20(tier string) []*explore.Scenario {
 	for _, n := range []int{2, 3} {
 		out = append(out, c20Overlap(n, "Bidi"), c20Overlap(n, "Unary"))
 	}
+	for _, end := range []string{"stop", "read-fails", "write-fails"} {
+		out = append(out, c20ConnEndsInFlight(end, 1))
+	}
 	for _, ic := range []string{"retry", "fallback", "own-context", "retry-stream"} {
 		out = append(out, c20ClientInterceptorStats(ic))
 	}
@@ -645,6 +648,90 @@ func c20ClientInterceptorStats(what string) *explore.Scenario {
 				return false, false
 			})
 			finishDirect(d, w, false)
+		},
+	}
+}
+
+// c20ConnEndsInFlight: a unary call and a stream are in flight, each in a
+// handler that waits on its context and then takes a moment to return, when the
+// connection ends (Stop, read failure, write failure). Every server stats
+// handler still sees, for each of the two RPCs, exactly one Begin and exactly
+// one End, and the End carries an error.
+func c20ConnEndsInFlight(end string, bound int) *explore.Scenario {
+	fam := "C20/stats"
+	return &explore.Scenario{
+		Name: "C20/stats/connection-ends-in-flight/" + end, Family: fam, Prop: "C20", Bound: bound, Horizon: time.Hour,
+		Run: func() {
+			ssh := []*c20SH{newC20SH("s0"), newC20SH("s1")}
+			w := env.NewWorld()
+			d := env.NewDirect(w, env.DirectOpts{Pipe: env.PipeOpts{Cap: 64}, ServerOpts: []goat.ServerOption{goat.StatsHandler(ssh[0]), goat.StatsHandler(ssh[1])}})
+			vsched.Settle()
+			vsched.Explore(true)
+			slow := make(chan struct{})
+			ru, rs := w.Rec("u", "Unary"), w.Rec("s", "Bidi")
+			w.Unaries["u"] = func(r *env.Rec, ctx context.Context, in string) (string, error) {
+				<-ctx.Done()
+				<-slow
+				return "", status.FromContextError(ctx.Err()).Err()
+			}
+			w.Handlers["s"] = func(r *env.Rec, ss grpc.ServerStream) error {
+				<-ss.Context().Done()
+				<-slow
+				return status.FromContextError(ss.Context().Err()).Err()
+			}
+			vsched.GoNamed("caller-u", func() { w.CallUnary(d.CC, context.Background(), ru, "x") })
+			vsched.GoNamed("caller-s", func() {
+				if cs := w.Open(d.CC, context.Background(), rs); cs != nil {
+					env.CSend(rs, cs, "m")
+					env.CRecvAll(rs, cs)
+				}
+				rs.CDone = true
+			})
+			vsched.Quiesce()
+			switch end {
+			case "stop":
+				d.Srv.Stop()
+			case "read-fails":
+				d.Pipe.A.Break()
+				d.Pipe.B.Break()
+			case "write-fails":
+				d.Pipe.B.WriteFailAt = d.Pipe.B.NWritten
+				pr := w.Rec("p", "Unary")
+				vsched.GoNamed("caller-p", func() { w.CallUnary(d.CC, context.Background(), pr, "x") })
+			}
+			vsched.Quiesce()
+			close(slow)
+			vsched.Quiesce()
+			d.Pipe.A.Break()
+			d.Pipe.B.Break()
+			vsched.Quiesce()
+			vsched.Obs("end=%s serveDone=%v s0=%v", end, d.ServeDone, ssh[0].events)
+			for _, sh := range ssh {
+				if len(sh.untagged) > 0 {
+					vsched.Fail(fam+"|untagged", "server stats handler %s: events without its TagRPC context: %v", sh.name, sh.untagged)
+				}
+				for tag := 1; tag <= sh.next; tag++ {
+					ev := sh.events[tag]
+					if len(ev) == 0 {
+						continue
+					}
+					begins, ends, endErr := 0, 0, false
+					for _, e := range ev {
+						if e == "Begin" {
+							begins++
+						}
+						if strings.HasPrefix(e, "End") {
+							ends++
+							endErr = e == "End:err"
+						}
+					}
+					if begins != 1 || ends != 1 {
+						vsched.Fail(fam+"|end-count", "the connection ended (%s) with RPC %s in flight: server stats handler %s saw %d Begin and %d End: %v", end, sh.methods[tag], sh.name, begins, ends, ev)
+					} else if !endErr && (sh.methods[tag] != env.MUnary || end != "write-fails") {
+						vsched.Fail(fam+"|end-error", "the connection ended (%s) with RPC %s in flight: server stats handler %s saw End without an error: %v", end, sh.methods[tag], sh.name, ev)
+					}
+				}
+			}
 		},
 	}
 }
